@@ -335,6 +335,9 @@ def run(tier, rng):
         [('execute', 3), ('fetchone',), ('newiter',), ('next', 0), ('rownumber',)],
         [('execute', 2), ('fetchall',), ('rowcount',), ('execute', 1), ('rownumber',), ('rowcount',)],
         [('rowcount',), ('fetchone',), ('fetchmany', None), ('fetchall',), ('hasdesc',)],
+        # round 8 (seed C10-m15): an iterator advanced, the cursor re-executed, the OLD iterator advanced again
+        [('execute', 4), ('newiter',), ('next', 0), ('execute', 3), ('next', 0), ('rownumber',), ('next', 0), ('fetchone',), ('next', 0)],
+        [('execute', 2), ('newiter',), ('next', 0), ('next', 0), ('execute', 6), ('newiter',), ('next', 0), ('next', 1), ('next', 0), ('rownumber',)],
     ]
     hist = corpus + hist
     impl_out = core.pmap(run_impl, hist)
